@@ -559,6 +559,29 @@ def _gather_const_idx(x):
 BUILDERS["gather_const_idx"] = lambda: _p("gather_const_idx", _gather_const_idx, [(5, 4)])
 BUILDERS["implicit_fn_a"] = lambda: _p("implicit_fn_a", lambda x, **kw: fn_takes_det(x) + 1.0, [(2, 4)], input_params={"deterministic": True})
 BUILDERS["implicit_fn_b"] = lambda: _p("implicit_fn_b", lambda x, **kw: fn_no_det(x) + 1.0, [(2, 4)], input_params={"deterministic": True})
+_COND_W = (np.arange(12, dtype=np.float32).reshape(4, 3) * 0.1).astype(np.float32)
+
+
+def _cond_dead_capture(x):
+    # a value computed outside a cond and captured by a branch that does not use it for its result
+    y = jnp.sin(x) @ _COND_W
+    return lax.cond(jnp.sum(x) > 0, lambda a: (y + 1.0, a * 2.0)[1], lambda a: a - 1.0, x)
+
+
+def _cond_unused_operand(x):
+    y = jnp.sin(x) @ _COND_W
+    return lax.cond(jnp.sum(x) > 0, lambda a, b: a * 2.0, lambda a, b: a - 1.0, x, y)
+
+
+BUILDERS["cond_dead_capture"] = lambda: _p("cond_dead_capture", _cond_dead_capture, [(2, 4)])
+BUILDERS["cond_unused_operand"] = lambda: _p("cond_unused_operand", _cond_unused_operand, [(2, 4)])
+def _rope():
+    return _single("eqx_rope", lambda: eqx.nn.RotaryPositionalEmbedding(embedding_size=8))
+
+
+# an Equinox layer that keeps a process-wide table cache of its own (keyed by size and dtype)
+BUILDERS["eqx_rope"] = lambda: _p("eqx_rope", _rope(), [(6, 8)])
+BUILDERS["eqx_rope_long"] = lambda: _p("eqx_rope_long", _rope(), [(24, 8)])
 BUILDERS["named_io"] = lambda: _p("named_io", lambda x, y: (x + y, x * y), [(3, 4), (3, 4)], input_names=["lhs", "rhs"], output_names=["sum", "prod"])
 # float16 programs (narrower than the export's default float)
 BUILDERS["f16_elementwise"] = lambda: _p("f16_elementwise", lambda x, y: x * y + x, [(3, 4), (3, 4)], dtypes=[np.float16, np.float16])
